@@ -44,6 +44,10 @@ Definition env_of (v : N) : N := v / 4 - 1.
 Definition store_val (c : N) : N := 8 * (c + 1).    (* address of the storage of container c *)
 Definition node_val (n : N) : N := n + 1.           (* LIST_HEAD value: pointer to node n; 0 = null *)
 
+(** A debt slot: node and index (index 8 = helping slot). *)
+Definition slot : Type := (N * N)%type.
+Definition slot_loc (sl : slot) : loc := LSlot (fst sl) (snd sl).
+
 (** ** Operations and events *)
 Inductive aop := OLoad | OStore | OSwap | OCas | OCasWeak | OFetchAdd | OFetchSub.
 Global Instance aop_eq_dec : EqDecision aop. Proof. solve_decision. Defined.
@@ -52,7 +56,7 @@ Global Instance aop_eq_dec : EqDecision aop. Proof. solve_decision. Defined.
 Inductive retval :=
 | RUnit
 | RNode (n : N)
-| RGuard (p : N) (d : option loc)     (* pointer and the debt slot it still owes, if any *)
+| RGuard (p : N) (d : option slot)    (* pointer and the debt slot it still owes, if any *)
 | ROwned (p : N).
 
 Inductive panic_site :=
